@@ -11,7 +11,6 @@ use crate::util::{frac, hash_of, mix};
 use crate::{ensure, ensure_eq};
 use proptest::prelude::*;
 use serde::{Deserialize, Serialize};
-use simple_sds::bit_vector::BitVector;
 use simple_sds::int_vector::{IntVector, IntVectorWriter};
 use simple_sds::ops::{BitVec, PredSucc, Rank, Select, SelectZero};
 use simple_sds::rl_vector::RLBuilder;
